@@ -110,4 +110,62 @@ theorem pullIdLoop_wf (i : ι) : ∀ (cs : List (Change ι μ)) (s : View ι μ)
       · simp only [everLeft, ha]
         cases h : (s i) <;> simp [ih.2]
 
+/-- what satisfying the (optional) predicate means for a stored value -/
+def Matches (p : Option (Pred ι μ)) (i : ι) (w : μ) : Prop :=
+  match p with
+  | none => True
+  | some f => f i (some w) = true
+
+/-- every value `PullID`'s loop sends is the new value of a non-REMOVE change of its id in the stream -/
+theorem pullIdLoop_mem (i : ι) : ∀ (cs : List (Change ι μ)) (vb : μ × Bool), vb ∈ (pullIdLoop i cs).1 →
+    ∃ c ∈ cs, c.id = i ∧ c.kind ≠ .remove ∧ c.new = some vb.1
+  | [], vb, h => by simp [pullIdLoop] at h
+  | c :: cs, vb, h => by
+    by_cases hid : c.id = i
+    · by_cases hk : c.kind = .remove
+      · simp [pullIdLoop, hid, hk] at h
+      · cases hv : c.new with
+        | none => simp [pullIdLoop, hid, hk, hv] at h
+        | some v =>
+          simp only [pullIdLoop, hid, hk, hv, if_true, if_false, List.mem_cons] at h
+          rcases h with rfl | h
+          · exact ⟨c, List.mem_cons_self, hid, hk, hv⟩
+          · obtain ⟨d, hd, h3⟩ := pullIdLoop_mem i cs vb h
+            exact ⟨d, List.mem_cons_of_mem _ hd, h3⟩
+    · simp only [pullIdLoop, hid, if_false] at h
+      obtain ⟨d, hd, h3⟩ := pullIdLoop_mem i cs vb h
+      exact ⟨d, List.mem_cons_of_mem _ hd, h3⟩
+
+omit [DecidableEq ι] in
+/-- what `include` forwards and is not a REMOVE carries a value satisfying the predicate -/
+theorem includeChange_matches (p : Option (Pred ι μ)) (c d : Change ι μ) (h : includeChange p c = some d)
+    (hk : d.kind ≠ .remove) (w : μ) (hw : d.new = some w) : Matches p d.id w := by
+  cases p with
+  | none => trivial
+  | some f =>
+    simp only [includeChange] at h
+    simp only [Matches]
+    split at h
+    · split at h
+      · rename_i hn
+        cases h
+        simp only [Bool.and_eq_true] at hn
+        rw [hw] at hn; exact hn.2
+      · cases h
+    · split at h
+      · rename_i hn
+        cases h
+        simp only [Bool.and_eq_true] at hn
+        simp only at hw
+        rw [hw] at hn; exact hn.2
+      · cases h
+        exact absurd rfl hk
+
+omit [DecidableEq ι] in
+theorem matches_of_not_exclude (p : Option (Pred ι μ)) (i : ι) (w : μ) (h : exclude p i w = false) :
+    Matches p i w := by
+  cases p with
+  | none => trivial
+  | some f => simpa [exclude, Matches] using h
+
 end ScVerif.C08
